@@ -72,6 +72,8 @@ FORMS = [
     ('b-true', {'form': 'b', 'v': True}, 'bool:True'),
     ('b-false', {'form': 'b', 'v': False}, 'bool:False'),
     ('date', {'form': 'date', 'v': 43831}, 'date:43831'),
+    # a date-formatted number below 1 is a time of day: still a number
+    ('time', {'form': 'date', 'v': 0.5}, 'num:0.5'),
     ('e', {'form': 'e', 'v': '#N/A'}, 'err:#N/A'),
     # text that begins with "=" (typed as '=E1*2): a constant, not a formula
     ('s-eq', {'form': 's', 'v': '=E1*2'}, 'text:=E1*2'),
@@ -93,11 +95,13 @@ FORMS = [
                    'cv': 'stale'}, 'text:stale'),
     ('f-date', {'form': 'f', 'f': 'E1+43829', 'ct': 'n', 'cv': 43831,
                 'style': 1}, 'date:43831'),
+    ('f-time', {'form': 'f', 'f': 'E1/8', 'ct': 'n', 'cv': 0.25,
+                'style': 1}, 'num:0.25'),
     ('f-e', {'form': 'f', 'f': 'E1/0', 'ct': 'e', 'cv': '#DIV/0!'},
      'err:#DIV/0!'),
 ]
 HELPERS = {'E1': 2, 'E2': 3, 'E3': 4}
-FORMULA_VALUES = {'E1+43829': 'num:43831.0', 'E1&" [kg]"': 'text:2 [kg]',
+FORMULA_VALUES = {'E1+43829': 'num:43831.0', 'E1/8': 'num:0.25', 'E1&" [kg]"': 'text:2 [kg]',
                   'E1+E2*E3': 'num:14.0', 'E1&"x"': 'text:2x',
                   'E1>E2': 'bool:False', 'E1/0': 'err:#DIV/0!'}
 
